@@ -41,6 +41,14 @@ Fixpoint constr_complete_ok (c sc : cls) (k : constr) {struct k} : bool :=
   | CWhen q body =>
     cond_complete_ok c q &&
     (fix go (l : list constr) : bool := match l with [] => true | x :: r => constr_complete_ok c sc x && go r end) body
+  (* 2.0 Indicator: the pattern is a plain string property *)
+  | CPatternValidator V20 => match find_slot c (u "pattern") with Some s => is_stringy (skind s) | None => false end
+  (* `hashes` is of a kind the theorem's inputs do not give (nested dictionary of hashes): never stored *)
+  | CLegalHashes _ => nodefault c (u "hashes") &&
+                      match find_slot c (u "hashes") with Some s => negb (kind_complete2 (skind s)) | None => true end
+  | CSocketOptions => nodefault c (u "options") &&
+                      match find_slot c (u "options") with Some s => match skind s with KDict _ => true | _ => false end | None => true end
+  | CProcessExt => true
   | _ => false
   end.
 
@@ -86,6 +94,8 @@ Section CompCons.
   Hypothesis Hent : forall k x, alookup k setting = Some x -> ent_ok vr ev c sc mem k x.
   Hypothesis Hin : forall k v, alookup k mem = Some v -> amem k setting = true.
   Hypothesis HT : Itime c setting.
+  (* every given member is a property of a covered kind *)
+  Hypothesis Hcomp : forall k v, alookup k mem = Some v -> exists s, find_slot c k = Some s /\ kind_complete2 (skind s) = true.
 
   Lemma has_eq p : nodefault c p = true -> amem p setting = match alookup p mem with Some _ => true | None => false end.
   Proof.
@@ -265,6 +275,54 @@ Section CompCons.
       rewrite forallb_forall in H. clear Hok. induction body as [|y body IHb]; [reflexivity|].
       cbn [constr_all]. rewrite (IH y); [|apply Hbody; left; auto | apply H; left; auto]. cbn [bind].
       apply IHb; intros; [apply H | apply Hbody]; right; auto.
+    - (* CPatternValidator (2.0) *)
+      destruct v; try discriminate Hok. simpl in Hok.
+      destruct (find_slot c (u "pattern")) as [s|] eqn:Es; try discriminate Hok.
+      unfold jget, pget in *. rewrite jlookup_alookup in H.
+      destruct (alookup (u "pattern") mem) as [[| | | |p| |]|] eqn:Ev; try discriminate H.
+      destruct (stored _ _ Ev) as (x & s0 & s' & Hx & Hf & Hf' & Ha & Hj & Hs & Hsh). rewrite Hx.
+      rewrite Es in Hf. injection Hf as <-.
+      assert (Hpj : is_pj x).
+      { destruct (skind s); try discriminate Hok; apply Hsh; reflexivity. }
+      destruct Hpj as [j ->].
+      assert (Ej : j = JStr p).
+      { destruct (skind s); try discriminate Hok; destruct (skind s'); simpl in Ha; try discriminate Ha;
+          cbn [jsame encode] in Hs; congruence. }
+      subst j. rewrite H. reflexivity.
+    - (* CLegalHashes: not given, so not stored *)
+      simpl in Hok. apply andb_true_iff in Hok. destruct Hok as [Hn Hk].
+      assert (Ev : alookup (u "hashes") mem = None).
+      { destruct (alookup (u "hashes") mem) as [v|] eqn:Ev; auto. destruct (Hcomp _ _ Ev) as [s [Hf Hc]].
+        rewrite Hf in Hk. rewrite Hc in Hk. discriminate. }
+      unfold pget. rewrite (absent _ Hn Ev). reflexivity.
+    - (* CSocketOptions *)
+      simpl in Hok. apply andb_true_iff in Hok. destruct Hok as [Hn Hk].
+      unfold jget, pget in *. rewrite jlookup_alookup in H.
+      destruct (alookup (u "options") mem) as [v|] eqn:Ev; [|rewrite (absent _ Hn Ev); reflexivity].
+      destruct (stored _ _ Ev) as (x & s0 & s' & Hx & Hf & Hf' & Ha & Hj & Hs & Hsh). rewrite Hx.
+      rewrite Hf in Hk. destruct (skind s0) eqn:Ek; try discriminate Hk.
+      destruct (Hsh eq_refl) as [j ->].
+      destruct (skind s'); simpl in Ha; try discriminate Ha. cbn [jsame encode] in Hs. subst j.
+      destruct v as [| | | | | |om]; try discriminate H.
+      assert (E : forallb (fun kv => mem_ustr (match ufind [95%N] (fst kv) 0 with Some i => utake (S i) (fst kv) | None => [] end) socket_prefixes &&
+                                     match snd kv with JInt _ => true | JBool _ => negb (vr_sock_int vr) | _ => false end) om = true).
+      { rewrite forallb_forall in *. intros kv Hkv. specialize (H kv Hkv). unfold socket_prefixes.
+        apply andb_true_iff in H. destruct H as [H1 H2]. rewrite H1. destruct (snd kv); try discriminate H2. reflexivity. }
+      rewrite E. reflexivity.
+    - (* CProcessExt *)
+      apply orb_true_iff in H.
+      destruct (at_least_one (default_checked c) setting) as [[]| |] eqn:Ea; auto.
+      + destruct H as [H | H].
+        * exfalso. unfold at_least_one in Ea. apply existsb_exists in H. destruct H as [p [Hp Hh]].
+          pose proof (sdc_sub p Hp) as Hpc. destruct (default_checked c) as [|p0 ps] eqn:Ed; [destruct Hpc|].
+          assert (X : existsb (fun q => amem q setting) (p0 :: ps) = true).
+          { apply existsb_exists. exists p. split; auto. rewrite jhas_alookup in Hh.
+            destruct (alookup p mem) eqn:Ev; try discriminate. eapply Hin; eauto. }
+          rewrite X in Ea. discriminate.
+        * rewrite jhas_alookup in H. destruct (alookup (u "extensions") mem) eqn:Ev; try discriminate.
+          change (amem (u "extensions") setting) with (amem (u "extensions") setting). rewrite (Hin _ _ Ev). reflexivity.
+      + exfalso. unfold at_least_one in Ea. destruct (default_checked c); [discriminate|].
+        destruct (existsb _ (u0 :: l)); discriminate.
     - (* CSkipBaseCheck *) reflexivity.
   Qed.
 End CompCons.
